@@ -884,7 +884,7 @@ class TemplateModel(object):
         assert template.ndim == 2
         channel_ids_, amplitude, best_channel = self._find_best_channels(
             template, amplitude_threshold=amplitude_threshold)
-        channel_ids = channel_ids if channel_ids is not None else channel_ids_
+        channel_ids = np.asarray(channel_ids) if channel_ids is not None else channel_ids_
         template = template[:, channel_ids]
         # The amplitudes refer to the returned channels, in the same order as the columns.
         amplitude = template.max(axis=0) - template.min(axis=0)
